@@ -44,3 +44,12 @@ chk("C01", "exploration",
     "in array-function handlers/item assignment, a[i]=dimensionless quantity, ==/!= and isclose against a dimensionless "
     "operand, CGS<->SI EM counterpart conversions.",
     "matrix enumeration with independent dimension oracle and operand snapshots", "DESIGN.md §3 C01")
+chk("C08", "exploration",
+    "Exhaustive sweep over every ordered pair of temperature spellings (K, R, degC, degF, delta_degC, delta_degF and the "
+    "SI-prefixed forms of the prefixable ones: 24 units quick, 69 thorough) x four conversion routes x (+,-) in operator, "
+    "ufunc, in-place and out= form x comparisons, with fixed and Hypothesis-drawn readings; per unit the diff/ediff1d/ptp "
+    "helpers and ~60 multiplicative/power/root forms that must refuse. Every returned value is compared with an exact-rational "
+    "affine model in kelvin, in the scale of the unit the result is labelled with.",
+    "Trusted: the affine model (s, z) written from the statement; forms the statement does not list (point+point, "
+    "difference-point, point-vs-difference comparisons) are counted but not judged; a refusal is always accepted for additive forms.",
+    "exhaustive pair-table enumeration + Hypothesis readings vs exact affine model", "DESIGN.md §3 C08")
